@@ -266,6 +266,9 @@ def boundary_cases():
             # over disallowed PUs; a query before the last mutation so that the original's caches are valid while the copy refreshes lazily
             ("b:disallowed-initiators", ["flags 1", two_numa], ["pre allowobj 1004 0 5", "pre mseto 2 0 1001 0 500", "pre obs", "pre mseto 2 0 1001 1 1000", "pre mseto 2 0 1003 3 2000",
                                                               "dup", "mut A mseto 2 0 1003 2 7"] + d),
+            # values and a query first (valid caches), THEN the PUs under some initiators become disallowed: the copy refreshes lazily
+            ("b:disallowed-after-query", ["flags 1", two_numa], ["pre mseto 2 0 1001 0 500", "pre mseto 2 0 1001 1 1000", "pre mseto 2 0 1003 3 2000", "pre mseti 5 1 1001 1 7", "pre obs",
+                                                               "pre allowobj 1004 0 5", "pre allownode 0 0", "dup", "mut A allow 1"] + d),
             ("b:disallowed-node-target", ["flags 1", two_numa], ["pre allownode 0 0", "pre allowobj 1004 0 3", "pre mreg foo 1", "pre mset 8 1 - 20", "pre mseti 5 1 1001 1 30", "pre obs",
                                                                "pre mseto 5 1 1003 3 40", "pre mset 8 0 - 10", "dup", "mut B mset 8 1 - 21"] + d),
             ("b:disallowed-distances-kinds", ["flags 1", two_numa], ["pre allowobj 1004 2 5", "pre distadd 1004 8 5 0 1", "pre disthet 1004:7,1014:1,1003:0 6 2", "pre kobj 1003 3 2 k a", "pre kobj 1003 0 1 k b",
@@ -276,6 +279,10 @@ def boundary_cases():
             ("b:memattr-all-targets-removed", [two_numa], ["pre mreg foo 1", "pre mset 8 1 - 20", "pre robj 1014 0 24", "pre refresh", "dup"] + d),
             ("b:memattr-all-initiators-removed", [two_numa], ["pre mseto 2 0 1001 1 300", "pre mseto 2 1 1001 1 400", "pre robj 1001 0 0", "pre refresh", "dup"] + d),
             ("b:cpukinds", ["src synthetic core:4 pu:2"], ["pre kobj 1003 0 1 k a", "pre kobj 1003 1 2 k b", "pre kobj 1003 2 2 k c", "dup", "mut A kobj 1003 3 5 k d", "mut B robj 1003 0 0"] + d),
+            # a restrict that leaves ONE kind, not the least efficient one: its efficiency must be re-ranked on the original as on the copy
+            ("b:cpukinds-one-survivor-high", ["src synthetic pu:8"], ["pre kobj 1004 0 10 k a", "pre kobj 1004 1 10 k a", "pre kobj 1004 4 20 k b", "pre kobj 1004 5 20 k b", "pre robj 1004 4 0", "dup"] + d),
+            ("b:cpukinds-one-survivor-of-three", ["src synthetic core:4 pu:2"], ["pre kobj 1003 0 1 k a", "pre kobj 1003 1 5 k b", "pre kobj 1003 2 9 k c", "pre robj 1003 2 0", "dup", "mut A kobj 1004 0 3 k d"] + d),
+            ("b:cpukinds-two-survivors", ["src synthetic core:4 pu:2"], ["pre kobj 1003 0 1 k a", "pre kobj 1003 1 5 k b", "pre kobj 1003 2 9 k c", "pre gobj 1003 1 2", "pre robj 1013 0 0", "dup"] + d),
             ("b:cpukinds-all-removed", ["src synthetic core:4 pu:2"], ["pre kobj 1003 0 1 k a", "pre robj 1003 1 0", "dup"] + d),
             ("b:infos", [two_numa], ["pre info 0 0 a b", "pre info 1004 0 c d", "pre tinfo e f", "dup", "mut A info 0 0 g h", "mut B tinfo i j"] + d),
             ("b:misc+group", ["filter 19 0", two_numa], ["pre misc 0 0 m1", "pre misc 1004 2 m2", "pre gobj 1003 0 1", "dup", "mut A misc 1 0 m3", "mut B gobj 1004 0 1"] + d),
